@@ -45,8 +45,110 @@ def c01(run):
                            "traces: random walks over the HashMap API under adversarial plan families, every step validated")
 
 
+def generic_check(run, models_q, models_t, jobs_q, jobs_t, rule):
+    quick = run.tier == Q
+    run.assumptions += COMMON_ASSUMPTIONS
+    for m in (models_q if quick else models_q + models_t):
+        run.model(*m[:2], **(m[2] if len(m) > 2 else {}))
+    jobs = jobs_q if quick else jobs_q + jobs_t
+    run.traces_parallel([job(run, *j[:2], **(j[2] if len(j) > 2 else {})) for j in jobs])
+    return run.finish(rule=rule)
+
+
+G = {"backend": "generic"}
+
+
+def c03(run):
+    return generic_check(run, [("MC_map_w2q.cfg", "MC_map.tla", {"timeout": 300})], [],
+        [("drops", ["map:kv16:collide:24:1200:wide", "map:kv24:zero:12:600:iter", "map:kv16:fewpos:20:600:two"]),
+         ("setdrops", ["set:k8t:collide:20:700:set", "set:k8t:fewpos:16:700:setalg"])],
+        [("drops2", ["map:kv200:collide:30:3000:wide", "map:kva64:max:20:2000:iter", "map:kv16:onegroup:14:3000:two"]),
+         ("dropsg", ["map:kv16:collide:24:3000:wide", "set:k8t:zero:14:2000:setalg"], G)],
+        "every element id and allocator block is followed through every call: drops observed in each call = drops of the abstract machine; block ledger = layouts of the live tables")
+
+
+def c07(run):
+    return generic_check(run, [], [],
+        [("sets", ["set:k8t:collide:20:900:set", "set:k8t:fewpos:16:1200:setalg", "set:k4:zero:12:700:setalg:plan2=mixed"]),
+         ("sets2", ["set:k8t:mixed:24:900:setalg:plan2=collide", "set:k1:onegroup:16:700:set"])],
+        [("sets3", ["set:k8t:collide:20:4000:setalg:plan2=max", "set:k2:posfix:14:3000:setalg", "set:k8:tagfix:30:3000:set"]),
+         ("setsg", ["set:k8t:collide:20:3000:setalg", "set:k8t:zero:12:2000:set"], G)],
+        "pairs of sets built by random histories under independent hash plans; every algebra iterator, predicate, operator and assigning form compared with the mathematical result")
+
+
+def c08(run):
+    return generic_check(run, [("MC_map_w2q.cfg", "MC_map.tla", {"timeout": 300})], [],
+        [("cap", ["map:kv16:collide:24:1200:cap", "map:k4v4:zero:14:700:cap", "map:kv200:mixed:40:500:cap"]),
+         ("capset", ["set:k1:collide:20:700:set", "set:k2:fewpos:16:500:set"])],
+        [("cap2", ["map:kv24:onegroup:14:3000:cap", "map:kva64:fewpos:30:3000:cap", "map:k1v4:max:12:3000:cap"]),
+         ("capg", ["map:kv16:collide:24:3000:cap", "set:k1:zero:14:2000:set"], G)],
+        "capacity()/len()/allocation_size() and allocator events recorded around every call and checked against the capacity contract on tombstoned states")
+
+
+def c09(run):
+    return generic_check(run, [], [],
+        [("iter", ["map:kv16:collide:40:1200:iter", "map:k4v4:zero:24:600:iter", "map:kv24:mixed:60:500:iter"]),
+         ("iterset", ["set:k8t:collide:40:700:set", "set:k1:zero:30:500:set"])],
+        [("iter2", ["map:kv16:onegroup:12:3000:iter", "map:kv200:fewpos:60:3000:iter", "map:kv16:max:40:3000:iter"]),
+         ("iterg", ["map:kv16:collide:40:3000:iter", "set:k8t:zero:30:2000:set"], G)],
+        "every wrapper iterator walked with next/fold switch and clone points in every visited state; bucket index of each yield and every size_hint/len validated")
+
+
+def c10(run):
+    return generic_check(run, [("MC_map_w2sel.cfg", "MC_map.tla", {"timeout": 300})], [],
+        [("sel", ["map:kv16:collide:40:1200:iter", "map:kv24:zero:24:700:iter"]),
+         ("selset", ["set:k8t:collide:30:800:set"])],
+        [("sel2", ["map:kv16:onegroup:12:3000:iter", "map:kv200:fewpos:60:3000:iter"]),
+         ("selg", ["map:kv16:collide:40:3000:iter", "set:k8t:zero:30:2000:set"], G)],
+        "retain / extract_if / drain with random predicates (subsets) and early-drop points; predicate calls, yields and post-state validated")
+
+
+def c11(run):
+    return generic_check(run, [], [],
+        [("two", ["map:kv16:collide:24:1200:two:plan2=mixed", "map:kv24:zero:14:700:two:plan2=fewpos"]),
+         ("twoset", ["set:k8t:collide:20:900:setalg:plan2=mixed"])],
+        [("two2", ["map:kv200:onegroup:14:3000:two", "map:kva64:fewpos:30:3000:two:plan2=collide"]),
+         ("twog", ["map:kv16:collide:24:3000:two:plan2=mixed"], G)],
+        "ordered pairs (target, source) of tables built by random histories under different plans; clone / clone_from / == validated incl. fresh identities of the clones and later independence")
+
+
+def c13(run):
+    return generic_check(run, [("MC_map_w2churn.cfg", "MC_map.tla", {"timeout": 300})], [],
+        [("churn", ["map:kv16:collide:12:3000:churn", "map:kv16:zero:10:2000:churn"]),
+         ("churn2", ["map:k4v4:fewpos:14:3000:churn", "map:kv16:mixed:12:2000:churn"])],
+        [("churn3", ["map:kv16:collide:12:20000:churn"], {"tlc_timeout": 1800}),
+         ("churng", ["map:kv16:zero:10:10000:churn"], {"backend": "generic", "tlc_timeout": 1800})],
+        "model: insert/remove interleavings with bounded live size and unbounded buckets terminate with buckets <= bound; code: long churns, allocation_size bounded at every step")
+
+
+def c14(run):
+    return generic_check(run, [("MC_map_w2entry.cfg", "MC_map.tla", {"timeout": 300})], [],
+        [("entry", ["map:kv16:collide:24:1500:entry", "map:kv16:zero:12:800:entry"]),
+         ("entry2", ["map:k4v4:onegroup:14:800:entry", "set:k8t:collide:20:600:set"])],
+        [("entry3", ["map:kv24:fewpos:30:4000:entry", "map:kv200:max:20:3000:entry"]),
+         ("entryg", ["map:kv16:collide:24:3000:entry"], G)],
+        "every entry / entry_ref / raw_entry / rustc_entry method chain on random states incl. full-load and tombstone-saturated tables, compared with the get/insert/remove semantics of the abstract map")
+
+
+def c15(run):
+    return generic_check(run, [], [],
+        [("many", ["map:kv16:collide:16:1500:many", "map:k4v4:zero:10:800:many"])],
+        [("many2", ["map:kv24:lowbit:12:4000:many", "map:kv200:onegroup:14:3000:many"]),
+         ("manyg", ["map:kv16:collide:16:3000:many"], G)],
+        "random N-tuples (N = 0..4) incl. duplicates and absent keys; addresses of the returned references mapped to bucket indices and checked pairwise distinct")
+
+
 CHECKS = {
     "C01": c01,
+    "C03": c03,
+    "C07": c07,
+    "C08": c08,
+    "C09": c09,
+    "C10": c10,
+    "C11": c11,
+    "C13": c13,
+    "C14": c14,
+    "C15": c15,
 }
 
 
